@@ -256,12 +256,13 @@ Fixpoint secidx_loop (fuel : nat) (root sec : cfg) (steps : list (nat * nat)) (n
          (want_index : bool) (last : option optref) (index : Z) : resolved :=
   let finish (name : str) :=
     if want_index then {| rs_opt := last; rs_index := index; rs_diags := [] |}
-    else match getopt_leaf sec name with
+    else match name with [] => {| rs_opt := None; rs_index := index; rs_diags := [] |} | _ =>
+         match getopt_leaf sec name with
          | Some i => {| rs_opt := Some (rev steps, i); rs_index := index; rs_diags := [] |}
          | None => {| rs_opt := None; rs_index := index;
                       rs_diags := if negb (cflag root CFGF_IGNORE_UNKNOWN) && negb (cflag sec CFGF_KEYSTRVAL)
                                   then cfg_diag root "no such option '%s'" else [] |}
-         end in
+         end end in
   match fuel with
   | O => {| rs_opt := None; rs_index := index; rs_diags := [] |}
   | S fuel' =>
@@ -271,7 +272,7 @@ Fixpoint secidx_loop (fuel : nat) (root sec : cfg) (steps : list (nat * nat)) (n
       let len := strcspn name is_bar_eq in
       let after := skipn len name in
       if negb want_index && match after with [] => true | _ => false end then finish name
-      else if Nat.eqb len 0 then finish name
+      else if Nat.eqb len 0 then {| rs_opt := None; rs_index := index; rs_diags := [] |}
       else
         let secname := firstn len name in
         (* the do { } while (0) block: (opt index if a section option, i, title, name', len') *)
